@@ -42,6 +42,32 @@ theorem gen_hdrFields_eq : Gen.Wal.readHeaderFields =
 theorem gen_frameFields_eq : Gen.Wal.readFrameFields =
     [(0, "pgno"), (4, "commit"), (8, "salt1"), (12, "salt2"), (16, "chksum1"), (20, "chksum2")] := by decide
 
+/-! ### integer widths of the offset arithmetic
+
+The Nat model has unbounded offsets; the Go code computes them in fixed-width integers. The translator
+(go/types) inventories, for all of wal_reader.go and the WAL-offset statements of db.go, every integer
+multiplication with the width it is computed in, every narrowing conversion, and every widening
+conversion of arithmetic done below 64 bits. On /repo: all products are 64-bit, nothing narrows, and the
+only sub-64-bit arithmetic that is widened afterwards is the frame-size sum `pageSize + 24` (it wraps
+only for header page sizes ≥ 2^32-24, the stated modelling assumption). Together with
+`offset_fits_int64` (every offset of a frame inside a file shorter than 2^63 bytes is below 2^63) the
+model's unbounded arithmetic agrees with the code's. The engine's virtual WALs > 4 GiB exercise it. -/
+
+theorem gen_offset_products_64bit : Gen.Wal.offsetProducts.all (fun p => p.2.2 == 64) = true := by decide
+/-- the anchors are still there: `Offset`, `readFrame` and `pageMap` each compute exactly one product -/
+theorem gen_offset_products_anchors :
+    (Gen.Wal.offsetProducts.map (·.1)).filter (fun f => f == "Offset" || f == "readFrame" || f == "pageMap")
+      = ["Offset", "readFrame", "pageMap"] := by decide
+theorem gen_no_narrowing_conversion : Gen.Wal.narrowingConversions = [] := by decide
+theorem gen_widened_arith_no_product : Gen.Wal.widenedNarrowArith.all (fun c => !c.2.2.2) = true := by decide
+
+/-- No 64-bit wrap: the offset (and hence the product `frameN * frameSize`) of any frame that lies inside
+    a file of fewer than 2^63 bytes is below 2^63. -/
+theorem offset_fits_int64 (ps i len : Nat) (hin : frameOff ps i + (fhSize + ps) ≤ len) (hlen : len < 2 ^ 63) :
+    i * (fhSize + ps) < 2 ^ 63 ∧ frameOff ps i < 2 ^ 63 := by
+  unfold frameOff at *
+  omega
+
 /-! ## Hypotheses (decidable) -/
 
 /-- E1: no frame that passes litestream's test carries page number 0. -/
